@@ -935,6 +935,11 @@ class Interp:
             # Result as a plain enum value (Ok = 0, Err = 1): Continue(payload) / Break(residual)
             self.store(st, t["dest"], ('enum', 0, (a0[2][0] if a0[2] else self.opaque(),)) if a0[1] == 0 else ('enum', 1, (a0,)))
             return None
+        if name.endswith("std::ops::FromResidual>::from_residual") and name.startswith("<std::result::Result"):
+            # the residual of a Result is Result<Infallible, E>: what comes back is always an Err
+            a0 = args[0] if args else None
+            self.store(st, t["dest"], ('enum', 1, a0[2] if isinstance(a0, tuple) and a0[0] == 'enum' and a0[1] == 1 and a0[2] else (self.opaque(),)))
+            return None
         if name.endswith("std::ops::FromResidual>::from_residual") and name.startswith("<std::option::Option"):
             self.store(st, t["dest"], ('none',))
             return None
